@@ -1226,6 +1226,51 @@ impl State {
                 Ok(Value::Null)
             }
 
+            // ---------------------------------------------------- process environment (fault / layout scenarios)
+            // change the working directory ("to": absolute path, or a name below the caller's directory)
+            "chdir" => {
+                let to = req_str(op, "to")?;
+                let dir = if to.starts_with('/') { PathBuf::from(to) } else { self.ext.join(to) };
+                match std::env::set_current_dir(&dir) {
+                    Ok(()) => Ok(Value::Null),
+                    Err(e) => bad(format!("set_current_dir({}): {e}", dir.display())),
+                }
+            }
+            // soft file-size limit of the process: a write that crosses it is a genuine short write, the next one
+            // fails with EFBIG (SIGXFSZ ignored); "n": null lifts the limit again
+            "rlimit_fsize" => {
+                #[repr(C)]
+                struct RLimit {
+                    cur: u64,
+                    max: u64,
+                }
+                extern "C" {
+                    fn getrlimit(resource: i32, rlim: *mut RLimit) -> i32;
+                    fn setrlimit(resource: i32, rlim: *const RLimit) -> i32;
+                    fn signal(signum: i32, handler: usize) -> usize;
+                }
+                const RLIMIT_FSIZE: i32 = 1;
+                const SIGXFSZ: i32 = 25;
+                const SIG_IGN: usize = 1;
+                let n = op.get("n").and_then(|v| v.as_u64());
+                let mut lim = RLimit { cur: 0, max: 0 };
+                let rc = unsafe {
+                    signal(SIGXFSZ, SIG_IGN);
+                    getrlimit(RLIMIT_FSIZE, &mut lim)
+                };
+                if rc != 0 {
+                    return bad("getrlimit failed".to_string());
+                }
+                lim.cur = match n {
+                    Some(n) => n.min(lim.max),
+                    None => lim.max,
+                };
+                if unsafe { setrlimit(RLIMIT_FSIZE, &lim) } != 0 {
+                    return bad("setrlimit failed".to_string());
+                }
+                Ok(Value::Null)
+            }
+
             // ---------------------------------------------------- listing
             "list" => {
                 if asy {
